@@ -2,7 +2,9 @@ package chunkparser
 
 import (
 	"encoding/binary"
+	"fmt"
 	"io"
+	"math"
 )
 
 // MP4ChunkParser is a parser for fragmented mp4 content.
@@ -56,6 +58,11 @@ func (p *MP4ChunkParser) Parse() error {
 		}
 		size := binary.BigEndian.Uint32(p.buf[nextBoxStart : nextBoxStart+4])
 		currBox = string(p.buf[nextBoxStart+4 : nextBoxStart+8])
+		if size < 8 || size > math.MaxUint32-8-nextBoxStart {
+			// A box is at least its 8-byte header, and offsets must stay within 32 bits.
+			// (64-bit and to-end-of-file sizes are not supported.)
+			return fmt.Errorf("unsupported box size %d for box %q", size, currBox)
+		}
 		nextBoxStart += size
 		switch currBox {
 		case "moov":
